@@ -25,6 +25,8 @@ RULE = (
 
 # JSON numbers: the same out-of-range quantities also as they arrive when the sender wrote them with a fraction or exponent
 OUT_INT = [INT_MIN - 1, INT_MAX + 1, 2**40, -(2**40), 2**63, float(INT_MAX + 1), float(INT_MIN - 1), 1e12]
+OUT_INT_FRACTION = [INT_MAX + 0.5, INT_MIN - 0.5, INT_MAX + 0.25, INT_MIN - 0.75]
+OUT_UINT_FRACTION = [-0.5, UINT_MAX + 0.5, -0.25, -0.999]
 OUT_UINT = [-1, UINT_MAX + 1, 2**40, -(2**31), -1.0, float(UINT_MAX + 1), 1e12]
 
 
@@ -43,6 +45,7 @@ def edits_for(sub, p: dict) -> List[str]:
         out.append("delete-required")
     if t["kind"] == "base" and t["name"] in ("integer", "uinteger"):
         out.append("int-out-of-range")
+        out.append("int-out-of-range-fraction")
     if t["kind"] == "reference" and t["name"] in m.enums and not m.enum_open(t["name"], True):
         out.append("enum-outside")
     if t["kind"] == "stringLiteral":
@@ -84,6 +87,10 @@ def replacement(sub, p: dict, edit: str, sel: int) -> Any:
     t = p["type"]
     if edit == "int-out-of-range":
         pool = OUT_INT if t["name"] == "integer" else OUT_UINT
+        return pool[sel % len(pool)]
+    if edit == "int-out-of-range-fraction":
+        # numbers outside the range by less than one: cutting the fraction off would bring them inside
+        pool = OUT_INT_FRACTION if t["name"] == "integer" else OUT_UINT_FRACTION
         return pool[sel % len(pool)]
     if edit == "enum-outside":
         e = sub.model.enums[t["name"]]
